@@ -88,13 +88,11 @@ func deliverToSubscription(
 				func(s *sql.Selector) {
 					t := sql.Table(message.Table)
 					s.Join(t).On(s.C(delivery.MessageColumn), t.C(message.FieldID))
-					s.Where(sql.And(
-						// not necessary? maybe helps with indexes?
-						sql.EQ(t.C(message.TopicColumn), m.TopicID),
-						// ordering is per key: only a delivery of the same order key
-						// can be the predecessor
-						sql.EQ(t.C(message.FieldOrderKey), *m.OrderKey),
-					))
+					// ordering is per key: only a delivery of the same order key can
+					// be the predecessor. do not restrict this to the message's topic:
+					// deliveries that were dead-lettered into this subscription carry
+					// messages of other topics and have to be ordered with the rest.
+					s.Where(sql.EQ(t.C(message.FieldOrderKey), *m.OrderKey))
 				},
 			).
 			Order(ent.Desc(delivery.FieldPublishedAt)).
